@@ -480,6 +480,11 @@ def c10_judge_output(sent, glr, loc, line):
     parts = line.split(" ", 2)
     dbg = parts[2] if len(parts) > 2 else ""
     lits = [m.group(1) for m in STRLIT.finditer(dbg)]
+    if sent.get("lexamb"):
+        # lexically ambiguous grammar: the trees of the forest cut the input differently, but each carries all of it
+        if "".join(lits) != "".join(sent["content"]):
+            problems.append(("content", "AST carries the token texts %s, which do not spell the input's content %r" % (lits[:30], "".join(sent["content"])[:120])))
+        return problems, dbg
     if lits != sent["content"]:
         problems.append(("content", "AST carries the token texts %s but the input's content tokens are, in order, %s" % (lits[:30], sent["content"][:30])))
     if loc:
